@@ -94,8 +94,11 @@ def _reference(s, t):
 
 @st.composite
 def _weights_case(draw, tier='quick'):
-  return {'src': draw(_hgrid(tier, max_lon=48 if tier == 'quick' else 256)),
-          'tgt': draw(_hgrid(tier, max_lon=48 if tier == 'quick' else 256))}
+  s = draw(_hgrid(tier, max_lon=48 if tier == 'quick' else 256))
+  t = draw(_hgrid(tier, max_lon=48 if tier == 'quick' else 256))
+  if t == s and draw(st.sampled_from([True, True, True, False])):   # identical pairs only occasionally
+    t['nlon'] += 1
+  return {'src': s, 'tgt': t}
 
 
 def _check_weights(out, name, w, ref):
@@ -147,8 +150,10 @@ _PATTERNS = ('none', 'constant', 'one_cell', 'lat_row', 'lon_column', 'random30'
 
 @st.composite
 def _field_case(draw, tier='quick'):
-  return {'src': draw(_hgrid(tier)), 'tgt': draw(_hgrid(tier)), 'seed': draw(st.integers(0, 2 ** 16)),
-          'lead2': draw(st.booleans())}
+  s, t = draw(_hgrid(tier)), draw(_hgrid(tier))
+  if t == s and draw(st.sampled_from([True, True, True, False])):   # identical pairs only occasionally
+    t['nlon'] += 1
+  return {'src': s, 'tgt': t, 'seed': draw(st.integers(0, 2 ** 16)), 'lead2': draw(st.booleans())}
 
 
 def run_fields(case):
@@ -322,15 +327,15 @@ def run_vertical(case):
 
 SUBCHECKS = [
     Subcheck('horizontal_weights', run_weights, strategy=lambda tier: _weights_case(tier),
-             examples={'quick': 90, 'thorough': 3000}, shards={'quick': 3, 'thorough': 10}, weight=2,
+             examples={'quick': 70, 'thorough': 1000}, shards={'quick': 2, 'thorough': 10}, weight=2,
              rule='non-trivial = source and target grid differ',
              doc='longitude / latitude weight matrices vs brute-force overlaps: >= 0, rows sum to 1, entry-wise equal'),
     Subcheck('horizontal_fields', run_fields, strategy=lambda tier: _field_case(tier),
-             examples={'quick': 48, 'thorough': 1200}, shards={'quick': 4, 'thorough': 12}, weight=4,
+             examples={'quick': 40, 'thorough': 600}, shards={'quick': 2, 'thorough': 12}, weight=4,
              rule='non-trivial = source and target grid differ (7 field patterns x skipna on/off per case)',
              doc='constants, range, area-weighted integral, overlap-weighted mean, NaN propagation / skipping'),
     Subcheck('vertical_hybrid_to_sigma', run_vertical, strategy=lambda tier: _vertical_case(tier),
-             examples={'quick': 48, 'thorough': 1000}, shards={'quick': 4, 'thorough': 12}, weight=4,
+             examples={'quick': 40, 'thorough': 600}, shards={'quick': 2, 'thorough': 12}, weight=4,
              rule='non-trivial = at least 2 source and 2 target layers',
              doc='vertical conservative weights / regrid_hybrid_to_sigma: rows sum to 1 on covered cells, constants, range, '
                  'thickness-weighted integral over the covered range'),
